@@ -44,15 +44,16 @@ def gen(rng, count, tier):
                           'join_first': rng.random() < 0.5})
         calls.append({'kind': rng.choice(['stop_and_join', 'terminate', 'stop_and_join'])})
         sc = {'id': f't{k}', 'pool': pool, 'calls': calls, 'budget': 60, 'env': env}
-        if k % 10 == 7 and sm != 'threading':
+        if k % 10 in (3, 7) and sm != 'threading':
             # a FAILING call that has to terminate too: many large task arguments are queued (more than the pipes hold)
             # when task 0 raises; terminate() must empty the queues and return
             nq = rng.choice([24, 40])
+            exc3 = rng.choice(['ValueError', 'CtorArgs', 'CustomError'])          # CtorArgs: cannot be rebuilt by calling its class
             sc = {'id': f't{k}', 'pool': {'n_jobs': 2, 'start_method': sm}, 'budget': 60, 'env': {},
-                  'behaviour': {'task': [{'at': 5000, 'do': 'raise', 'exc': 'ValueError'}]},
+                  'behaviour': {'task': [{'at': 5000, 'do': 'raise', 'exc': exc3}]},
                   'calls': [{'kind': rng.choice(['map', 'map_unordered', 'imap_unordered']), 'n': nq, 'input': 'list', 'elem': 'bigtuple',
                              'arg_bytes': rng.choice([200000, 1000000]), 'params': {'chunk_size': 1, 'max_tasks_active': nq}, 'base': 5000,
-                             'expect_exc': 'ValueError'}]}
+                             'expect_exc': {'ValueError': 'ValueError', 'CtorArgs': 'CtorError', 'CustomError': 'CustomError'}[exc3]}]}
         scens.append(sc)
     return scens
 
